@@ -382,6 +382,7 @@ extern int mpt_graph_get(const MPT_STRUCT(graph) *gr, MPT_STRUCT(property) *pr)
 	}
 	if (!strcmp(pr->name, "clip") && gr->clip < 8) {
 		MPT_property_set_string(pr, axes_clip[gr->clip]);
+		return gr->clip != def_graph.clip;
 	}
 	return mpt_value_compare(&pr->val, ((uint8_t *) &def_graph) + elem[pos].off);
 }
